@@ -348,10 +348,10 @@ FUNCS = [
      "local_types": {"compute_time": "Nat", "data_time": "Nat"}, "props": ["C06", "C03"]},
     # ---- C08 / C19: cluster decisions
     {"name": "checkIngestCapacity", "file": "topsim/core/cluster.py", "cls": "Cluster", "func": "check_ingest_capacity",
-     "mode": "func", "sig": "(c : Cluster) (pipeline_demand max_ingest_resources : Nat) : Bool",
-     "params_py": ["pipeline_demand", "max_ingest_resources"],
+     "mode": "func", "sig": "(c : Cluster) (pipeline_demand max_ingest_resources : Nat) (reserved : Int) : Bool",
+     "params_py": ["pipeline_demand", "max_ingest_resources", "reserved"],
      "bind": {CL + "['available']": "c.available", CL + "['ingest']": "c.ingest"},
-     "dead_locals": ["num_available", "num_ingest"], "props": ["C08", "C05"]},
+     "local_types": {"num_available": "Int", "num_ingest": "Int", "promised": "Int"}, "props": ["C08", "C05"]},
     {"name": "clusterIsIdle", "file": "topsim/core/cluster.py", "cls": "Cluster", "func": "is_idle",
      "mode": "func", "sig": "(c : Cluster) : Bool",
      "bind": {CLD + "['tasks']['running']": "c.running", CLD + "['tasks']['waiting']": "([] : List Tid)",
@@ -431,7 +431,7 @@ FUNCS = [
      "params_py": ["max_ingest"],
      "bind": {"self.buffer.check_buffer_capacity(observation)": "bufOk",
               "pipelines[observation.name]['ingest_demand']": "d",
-              "self.cluster.check_ingest_capacity(pipeline_demand, max_ingest)": "clOk"},
+              "self.cluster.check_ingest_capacity(pipeline_demand, max_ingest, reserved=self.provision_ingest)": "clOk"},
      "mut": {"self.provision_ingest": "prov"}, "mut_order": ["self.provision_ingest"], "mut_init": {"prov": "prov0"},
      "local_types": {"buffer_capacity": "Bool", "cluster_capacity": "Bool", "pipeline_demand": "Int"}, "props": ["C05", "C08"]},
     # ---- C07 / C08: whole-volume admission test of the buffer
